@@ -59,7 +59,19 @@ func (c *columnEnum) findOrAdd(v []byte) uint32 {
 		c.data = append(c.data, string(v))
 		return uint32(len(c.data)) - 1
 	})
-	return at
+	if c.data[at] == b2s(&v) {
+		return at
+	}
+
+	// Another value shares the 32 bits of the hash the table is keyed by, and was there first.
+	// This one lives outside of the table and is found by scanning.
+	for i, s := range c.data {
+		if s == b2s(&v) {
+			return uint32(i)
+		}
+	}
+	c.data = append(c.data, string(v))
+	return uint32(len(c.data)) - 1
 }
 
 // readAt reads a string at a location
